@@ -61,6 +61,8 @@ def _evaluate_forwardref(ref: ForwardRef, memo: TypeCheckMemo) -> Any:
 
 def _resolve_type(type_: Any, memo: TypeCheckMemo) -> Any:
     """Resolve forward references in a type hint."""
+    if type_ is None:  # e.g., the argument of `list[None]`, `typing` constructs use `NoneType`
+        return type(None)
     if isinstance(type_, str):
         return _evaluate_forwardref(ForwardRef(type_), memo)
     if isinstance(type_, ForwardRef):
